@@ -58,6 +58,7 @@ class TaskThread:
         self.group_counts = [0] * len(GROUPS)
         self.first_sites = [[] for _ in GROUPS]   # per group: the own group-step numbers at which a NEW file:line was reached
         self._seen_sites = [set() for _ in GROUPS]
+        self.last_sites = [{} for _ in GROUPS]    # per group: file:line -> own group-step number of its LAST execution
 
 
 class SimLock:
@@ -233,6 +234,7 @@ class Scheduler:
                     if site_ not in t._seen_sites[i]:
                         t._seen_sites[i].add(site_)
                         t.first_sites[i].append(tg_[i])
+                    t.last_sites[i][site_] = tg_[i]
                 b >>= 1
                 i += 1
         if is_shared:
